@@ -169,7 +169,7 @@ func cmdCheck(args []string) int {
 		for _, u := range units {
 			var r *engine.UnitResult
 			if u.ct != nil {
-				opts := engine.Options{}
+				opts := engine.Options{Thorough: *tier == "thorough"}
 				r = prog.VerifyFunc(u.ct, opts)
 			} else {
 				r = prog.VerifyLemma(u.lm)
@@ -262,6 +262,7 @@ func report(vdir, prop, tier string, seed int, results []*engine.UnitResult, t0 
 	var samples []map[string]interface{}
 	var dischargedNames []string
 	vac := map[string]int{"cover_obligations": 0, "covered": 0}
+	deferred := 0
 	os.MkdirAll(filepath.Join(vdir, "replays", prop), 0o755)
 
 	sort.Slice(results, func(i, j int) bool { return results[i].Unit < results[j].Unit })
@@ -272,6 +273,7 @@ func report(vdir, prop, tier string, seed int, results []*engine.UnitResult, t0 
 			continue
 		}
 		funcs = append(funcs, r.Unit)
+		deferred += r.VC.Deferred
 		for a := range r.VC.Assume {
 			assumptions[a] = true
 		}
@@ -337,7 +339,7 @@ func report(vdir, prop, tier string, seed int, results []*engine.UnitResult, t0 
 				}
 			}
 			if verbose {
-				fmt.Printf("  %-8s %-10s %s   [%s @%s]\n", o.Status, o.Solver, o.Name, o.Desc, o.Pos)
+				fmt.Printf("  %-8s %-10s %5.1fs %s   [%s @%s]\n", o.Status, o.Solver, o.TimeS, o.Name, o.Desc, o.Pos)
 			}
 		}
 	}
@@ -422,6 +424,7 @@ func report(vdir, prop, tier string, seed int, results []*engine.UnitResult, t0 
 			"vacuity":                  vac,
 			"samples":                  samples,
 			"notes":                    notes,
+			"clauses_deferred_to_thorough_tier": deferred,
 		},
 		"assumptions": alist,
 		"wall_s":      wall,
